@@ -37,6 +37,14 @@ impl std::fmt::Debug for UdpSocket {
 pub(crate) struct MulticastGroups(IndexMap<SocketAddr, IndexSet<SocketAddr>>);
 
 impl MulticastGroups {
+    #[cfg(feature = "verif-hooks")]
+    pub(crate) fn verif_listing(&self) -> Vec<(SocketAddr, Vec<SocketAddr>)> {
+        self.0
+            .iter()
+            .map(|(g, m)| (*g, m.iter().copied().collect()))
+            .collect()
+    }
+
     fn destination_addresses(&self, group: SocketAddr) -> IndexSet<SocketAddr> {
         self.0.get(&group).cloned().unwrap_or_default()
     }
